@@ -324,6 +324,21 @@ def run_text_case(c):
                 spec = AbstractOfflineSpecification(LtlAst(), StlDiscreteTimeOfflineInterpreter())
             else:
                 spec = getattr(rtamt, c.get("factory", "StlDiscreteTimeOfflineSpecification"))()
+            nb = c.get("neighbour")
+            if nb:
+                # another live specification object with declarations of its own, parsed first: what it declared (constants,
+                # variables) is unknown to the object under examination
+                try:
+                    other = getattr(rtamt, nb.get("factory", "StlDiscreteTimeOfflineSpecification"))()
+                    for v in nb.get("declare", []):
+                        other.declare_var(v, "float")
+                    for k, val in nb.get("constdecl", []):
+                        other.declare_const(k, "float", val)
+                    other.spec = nb["text"]
+                    other.parse()
+                except Exception:  # noqa
+                    pass
+                out["_neighbour_alive"] = True
             for v in c.get("declare", []):
                 spec.declare_var(v, "float")
             for k, val in c.get("constdecl", []):
